@@ -1,1 +1,70 @@
-(* C10 - to be filled *)
+(* C10 - vram classes: declarative definitions. *)
+From Slinky Require Import Model.Types Model.Runtime Model.Style Model.Script Model.Writer Model.LdSem.
+From Slinky Require Import Spec.C04.
+Local Open Scope string_scope.
+
+(* the class statements an included segment is preceded by: the start statements of its class when no
+   earlier segment has caused them to be emitted, nothing otherwise *)
+Definition class_prefix (stg : settings) (classes : list vram_class) (seg : segment) (emitted : list string)
+  : list stmt :=
+  match sg_vram_class seg with
+  | Some cn =>
+      if mem_str cn emitted then []
+      else match class_get classes cn with
+           | Some c => class_start_stmts stg c cn
+           | None => []
+           end
+  | None => []
+  end.
+
+(* the classes marked as emitted after the segment *)
+Definition emitted_after (seg : segment) (emitted : list string) : list string :=
+  match sg_vram_class seg with
+  | Some cn => if mem_str cn emitted then emitted else cn :: emitted
+  | None => emitted
+  end.
+
+(* some included segment of the list names the class *)
+Definition names_class (rt : runtime) (cn : string) (segs : list segment) : bool :=
+  existsb (fun seg => should_emit rt (sg_conds seg) && opt_eqb_str (sg_vram_class seg) (Some cn)) segs.
+
+(* the statement every emitted class ends its start block with *)
+Definition class_end_init (sty : style) (cn : string) : stmt :=
+  linker_symbol (vram_class_end sty cn) (EHex8 0).
+
+(* the statement by which a member segment raises the end of its class *)
+Definition class_end_max (sty : style) (cn : string) (seg : segment) : stmt :=
+  SMaxSelf (vram_class_end sty cn) (segment_vram_end sty (sg_name seg)).
+
+(* the statements of a member segment up to the class-end update *)
+Definition seg_foot_main (stg : settings) (seg : segment) : list stmt :=
+  let sty := linker_symbols_style stg in
+  let name := sg_name seg in
+  ([SRomAdd ("." ++ name)] ++
+   (match segment_end_align seg with
+    | Some a => [SAlign "__romPos" a; SAlign "." a] | None => [] end) ++
+   sym_end_size (segment_vram_start sty name) (segment_vram_end sty name)
+                (segment_vram_size sty name) EDot ++
+   sym_end_size (segment_rom_start sty name) (segment_rom_end sty name)
+                (segment_rom_size sty name) (ESym "__romPos"))%list.
+
+(* ---------- the end of a class over all its members ---------- *)
+
+Definition is_member (rt : runtime) (cn : string) (seg : segment) : bool :=
+  should_emit rt (sg_conds seg) && opt_eqb_str (sg_vram_class seg) (Some cn).
+
+Definition members (rt : runtime) (cn : string) (segs : list segment) : list segment :=
+  filter (is_member rt cn) segs.
+
+(* the two shapes of statement by which slinky assigns a class end symbol: "END = 0x00000000" and
+   "END = MAX(END, x)" *)
+Definition end_shape (END : string) (s : stmt) : bool :=
+  match s with
+  | SAssign false false true sym (EHex8 0) => String.eqb sym END
+  | SMaxSelf sym _ => String.eqb sym END
+  | _ => false
+  end.
+
+(* every statement of the list that assigns END has one of these shapes *)
+Definition end_clean (END : string) (l : list stmt) : bool :=
+  forallb (fun s => negb (assigns END s) || end_shape END s) l.
